@@ -403,9 +403,9 @@ def gen_units():
            ],
            subst=[{"find": "self.separate_block_expr(%s_expr," % n, "replace": "self.separate_block_expr_%s(%s_expr," % (n, n),
                    "why": "call of the monomorphised copy (ExprType is fixed by the match arm)"} for n in ("process", "err", "initial")],
-           closures=dict([(str(k), {"params": ["TokenStream"], "ret": "(r: TokenStream)",
-                                     "ensures": ["r@ == prev@ + opt_toks(def_stream)"]}) for k in (0, 1, 3)]
-                         + [("2", {"params": ["&[Expr]"], "ret": "(r: Option<&Expr>)",
+           closures=dict([("|prev|#%d" % k, {"params": ["TokenStream"], "ret": "(r: TokenStream)",
+                                              "ensures": ["r@ == prev@ + opt_toks(def_stream)"]}) for k in (0, 1, 2)]
+                         + [("|exprs|", {"params": ["&[Expr]"], "ret": "(r: Option<&Expr>)",
                                    "ensures": ["exprs@.len() > 0 ==> r == Some(&exprs@[0])", "exprs@.len() == 0 ==> r is None"]})])),
         # C02 / C15: `<<<` (explicit or implicit): pop the inner chain and splice it, as a closure, into the recorded wrapper
         fn("wrap_last_step_stream", "r", proof_prologue="broadcast use lemma_step_toks1, lemma_not_hoisted;", attrs="#[verifier::rlimit(200)]\n",
@@ -581,22 +581,22 @@ def sep_fn_units():
                            ] + extra_ensures,
                   subst=sub,
                   closures={
-                      "0": {"params": ["&'x [Expr]"], "ret": "(r: Option<(TokenStream, Option<%s>)>)" % T,
+                      "|exprs|": {"id": "E", "params": ["&'x [Expr]"], "ret": "(r: Option<(TokenStream, Option<%s>)>)" % T,
                             "requires": ["exprs@ =~= inner_expr.operands()", "exprs@.len() > 0", "!must_not_hoist(inner_expr.ctor_of())"],
                             "ensures": ["match r { Some(p) => sep_ok_obs(*inner_expr, branch_index, expr_index, (Some(p.0), p.1)), None => !any_block(inner_expr.operands()) }"]},
-                      "1": {"params": ["(usize, &'x Expr)"], "ret": "(r: (Option<(TokenStream, Expr)>, Option<&'x Expr>))",
-                            "ensures": ["sep_f_ok(branch_index, expr_index, __c1p0.0, __c1p0.1, r)"]},
-                      "2": {"params": ["(Option<TokenStream>, Vec<Expr>)", "(Option<(TokenStream, Expr)>, Option<&'x Expr>)"],
+                      "|(index, expr)|": {"id": "F", "params": ["(usize, &'x Expr)"], "ret": "(r: (Option<(TokenStream, Expr)>, Option<&'x Expr>))",
+                            "ensures": ["sep_f_ok(branch_index, expr_index, __Fp0.0, __Fp0.1, r)"]},
+                      "|(def_acc, mut replace_acc), (def_with_expr, expr)|": {"id": "G", "params": ["(Option<TokenStream>, Vec<Expr>)", "(Option<(TokenStream, Expr)>, Option<&'x Expr>)"],
                             "ret": "(r: (Option<TokenStream>, Vec<Expr>))",
-                            "requires": ["(__c2p1.0 is Some) != (__c2p1.1 is Some)"],
-                            "ensures": ["sep_g_ok(__c2p0, __c2p1, r)"]},
-                      "3": {"params": ["TokenStream"], "ret": "(r: TokenStream)", "ensures": ["r@ == def_acc@ + def@"]},
-                      "4": {"params": ["TokenStream"], "ret": "(r: (TokenStream, Option<%s>))" % T,
+                            "requires": ["(__Gp1.0 is Some) != (__Gp1.1 is Some)"],
+                            "ensures": ["sep_g_ok(__Gp0, __Gp1, r)"]},
+                      "|def_acc|": {"id": "A", "params": ["TokenStream"], "ret": "(r: TokenStream)", "ensures": ["r@ == def_acc@ + def@"]},
+                      "|def|": {"id": "D", "params": ["TokenStream"], "ret": "(r: (TokenStream, Option<%s>))" % T,
                             "ensures": ["r.0 == def",
                                         "r.1 is Some ==> r.1->0.ctor_of() == inner_expr.ctor_of()",
                                         "(replace_exprs@.len() == inner_expr.operands().len() && replace_exprs@.len() > 0 && !must_not_hoist(inner_expr.ctor_of())) ==> (r.1 is Some && r.1->0.operands() =~= replace_exprs@)"]},
-                      "5": {"params": ["(TokenStream, Option<%s>)" % T], "ret": "(r: (Option<TokenStream>, Option<%s>))" % T,
-                            "ensures": ["r.0 == Some(__c5p0.0)", "r.1 == __c5p0.1"]},
+                      "|(def_stream, replaced_expr)|": {"id": "R", "params": ["(TokenStream, Option<%s>)" % T], "ret": "(r: (Option<TokenStream>, Option<%s>))" % T,
+                            "ensures": ["r.0 == Some(__Rp0.0)", "r.1 == __Rp0.1"]},
                   },
                   iter_loops={"0": {"invariant": [
                       "__i <= __it.len()", "__it@ == exprs@",
